@@ -87,4 +87,46 @@ def cstep (m : Method St Arg Out) (st : St) (s : CState Arg Out) : Atom Arg → 
 def crun (m : Method St Arg Out) (st : St) (s : CState Arg Out) (sched : List (Atom Arg)) : CState Arg Out :=
   sched.foldl (cstep m st) s
 
+/-! ### memos keyed by only part of the argument
+
+Hand-rolled memos (`if self.m_x is None: self.m_x = ...`, `self.m_cache[index] = ...`) store the
+result under a *key computed from the argument* — possibly not the whole argument.  `key := id` is
+the whole-argument machine above; `K := Unit` is the single-slot memo. -/
+
+section Keyed
+
+variable {St Arg K Out : Type} [DecidableEq K]
+
+/-- a memoised method together with the key its cache is indexed by -/
+structure KMethod (St Arg K Out : Type) where
+  pureOut : St → Arg → Out
+  key : Arg → K
+
+/-- the underlying (un-memoised) method -/
+def KMethod.toMethod (m : KMethod St Arg K Out) : Method St Arg Out := ⟨m.pureOut⟩
+
+/-- object state plus the cache indexed by keys (most recent entry first) -/
+structure KState (St K Out : Type) where
+  st : St
+  cache : List (K × Out)
+
+/-- the keyed memoising machine: a call looks `key a` up; a hit returns the stored value, a miss
+computes the body and stores the result under `key a`; mutations keep the cache -/
+def stepKeyed (m : KMethod St Arg K Out) (s : KState St K Out) : Op St Arg → KState St K Out × Option Out
+  | .call a =>
+    match s.cache.lookup (m.key a) with
+    | some o => (s, some o)
+    | none => let o := m.pureOut s.st a; ({ s with cache := (m.key a, o) :: s.cache }, some o)
+  | .mutate f => ({ s with st := f s.st }, none)
+
+def runKeyed (m : KMethod St Arg K Out) (s : KState St K Out) : List (Op St Arg) → List (Option Out)
+  | [] => []
+  | op :: rest => let (s', o) := stepKeyed m s op; o :: runKeyed m s' rest
+
+/-- the result is a function of the key: arguments the key does not distinguish give equal results -/
+def KeyRespects (m : KMethod St Arg K Out) : Prop :=
+  ∀ st a b, m.key a = m.key b → m.pureOut st a = m.pureOut st b
+
+end Keyed
+
 end BipVerif.Model.Memo
